@@ -1061,3 +1061,84 @@ def resolve_local_iterable(f, expr):
                 continue
         break
     return e
+
+
+# ---------------------------------------------------------------------- division by a count that can be zero
+def zero_divisions(p, f):
+    """[(binop node, divisor text)] - `/`, `//`, `%` in f whose right operand is a local COUNT (built from names that start at 0 and are only incremented,
+    from len(...), or from sums / differences of such) and that executes without a test of that divisor: for the inputs on which nothing was counted the
+    statement raises ZeroDivisionError"""
+    out = []
+    stores = {}
+    for n in walk_no_nested(f.node):
+        if isinstance(n, ast.Assign) and len(n.targets) == 1 and isinstance(n.targets[0], ast.Name):
+            stores.setdefault(n.targets[0].id, []).append(n.value)
+        elif isinstance(n, ast.AugAssign) and isinstance(n.target, ast.Name):
+            stores.setdefault(n.target.id, []).append(n)
+
+    def is_count(e, depth=0):
+        if depth > 4:
+            return False
+        if isinstance(e, ast.Call) and isinstance(e.func, ast.Name) and e.func.id == "len":
+            return True
+        if isinstance(e, ast.BinOp) and isinstance(e.op, (ast.Add, ast.Sub)):
+            return is_count(e.left, depth + 1) and is_count(e.right, depth + 1)
+        if isinstance(e, ast.Name):
+            vs = stores.get(e.id)
+            if not vs or e.id in f.params:
+                return False
+            zero_start = any(isinstance(v, ast.Constant) and v.value == 0 and not isinstance(v.value, bool) for v in vs if not isinstance(v, ast.AugAssign))
+            rest_ok = all((isinstance(v, ast.AugAssign) and isinstance(v.op, (ast.Add, ast.Sub))) or (isinstance(v, ast.Constant) and isinstance(v.value, int)) or (not isinstance(v, ast.AugAssign) and is_count(v, depth + 1)) for v in vs)
+            return rest_ok and (zero_start or any(not isinstance(v, (ast.AugAssign, ast.Constant)) and is_count(v, depth + 1) for v in vs))
+        return False
+
+    g = None
+    for n in walk_no_nested(f.node):
+        if isinstance(n, ast.BinOp) and isinstance(n.op, (ast.Div, ast.FloorDiv, ast.Mod)) and not isinstance(n.right, ast.Constant) and not isinstance(n.left, ast.Constant if isinstance(n.op, ast.Mod) and isinstance(getattr(n.left, "value", None), str) else ()):
+            if isinstance(n.op, ast.Mod) and isinstance(n.left, (ast.Constant, ast.JoinedStr)):
+                continue  # string formatting
+            if not is_count(n.right):
+                continue
+            if g is None:
+                g = cfg_of(f)
+            dtxt = norm(n.right)
+            guarded = False
+            try:
+                node = g.node_for(n)
+            except AnalysisError:
+                continue
+            names = {x.id for x in ast.walk(n.right) if isinstance(x, ast.Name)}
+            for t_, l_ in g.necessary_branches(node):
+                for a_, l2 in atomic_deps(t_.ast, l_):
+                    if (a_ == dtxt and l2 == "T") or (a_ in (f"{dtxt} == 0",) and l2 == "F") or (a_ in (f"{dtxt} > 0", f"0 < {dtxt}", f"{dtxt} >= 1") and l2 == "T") or (len(names) == 1 and a_.split(" ")[0] in names and ((" > 0" in a_ and l2 == "T") or (a_ == next(iter(names)) and l2 == "T"))):
+                        guarded = True
+            x, up = n, parent(n)
+            while up is not None and not isinstance(up, ast.stmt):
+                if isinstance(up, ast.IfExp) and any(y is x for y in ast.walk(up.body)) and any(a_ == dtxt and l2 == "T" for a_, l2 in atomic_deps(up.test, "T")):
+                    guarded = True
+                x, up = up, parent(up)
+            if not guarded:
+                out.append((n, dtxt))
+    return out
+
+
+def zero_division_rule(report, p, rid):
+    r = report.rule(
+        rid,
+        "no division or remainder by a COUNT that can be zero: a divisor built from counters that start at 0 / from len(...) is tested before it is used "
+        "(a percentage in a summary line, an average) - for the inputs on which nothing was counted (an unchanged flat folder, a history without directory hashes) "
+        "the statement raises ZeroDivisionError and the command ends with a traceback instead of its exit code",
+        2,
+    )
+    nf = 0
+    for q, f in sorted(p.funcs.items()):
+        if not f.module.name.startswith("ascmhl") or f.module.name in unshipped_modules(p):
+            continue
+        nf += 1
+        for n, dtxt in zero_divisions(p, f):
+            r.instance(f, n, norm(n)[:60])
+            r.check(False, f, n, f"`{norm(n)[:70]}` divides by `{dtxt}`, a count that is 0 when nothing was counted, without a test of it: ZeroDivisionError (exit 1, traceback) on such a run - e.g. `verify -dh` on an unchanged folder without sub-folders", construct=f"{f.name}: division by the count `{dtxt[:40]}`")
+    r.instance(None, None, f"{nf} shipped functions scanned for divisions by counts")
+    r.instance(None, None, "divisors that are constants or parameters are not counts")
+    r.check(True, None, None, "")
+    return r
